@@ -699,12 +699,23 @@ Fixpoint mon_promise (pr : list entry) (ops : list op) (obl : list (obs * view))
   | _, _ => None
   end.
 
+(* a complete UpdateGCSafePoint that meets no storage fault (faults are only injected at OFinish) is answered: an error
+   means the request acted on something other than the stored value (e.g. a read that etcd answered before an
+   acknowledged update) and was only stopped by the guard of its write *)
+Fixpoint mon_upd (ops : list op) (obl : list (obs * view)) : option string :=
+  match ops, obl with
+  | OUpd _ _ :: _, (BErr, _) :: _ => Some "C15:update-refused-without-a-storage-fault"
+  | _ :: r, _ :: br => mon_upd r br
+  | _, _ => None
+  end.
+
 (* the three groups of clauses are evaluated independently: a known violation of one does not hide another *)
 Definition opt_list (o : option string) : list string := match o with Some x => [x] | None => [] end.
 Definition monitor (c : case) : list string :=
   app (opt_list (mon_stored GAbsent (fst c) (snd c)))
       (app (opt_list (mon_resp false false [] [] (fst c) (snd c)))
-           (app (opt_list (mon_svc [] (fst c) (snd c))) (opt_list (mon_promise [] (fst c) (snd c))))).
+           (app (opt_list (mon_svc [] (fst c) (snd c)))
+                (app (opt_list (mon_promise [] (fst c) (snd c))) (opt_list (mon_upd (fst c) (snd c)))))).
 
 Fixpoint monitor_fails_from (n : nat) (cs : list case) : list (nat * string) :=
   match cs with
